@@ -27,6 +27,10 @@ CHECKS = {
             "Generated: a base expression is re-spelled by 1-5 surface operators (character references, namespace prefix/default xmlns, white space, comments, PIs, MathJax class attributes, attribute quoting, token-edge space) and canonical MathML, speech and braille must be identical; exhaustive: each of the 2125 names of src/entities.in must expand like the numeric references of the HTML5 expansion; names in neither table must be rejected by name.",
             "Trusts Python's html.entities.html5 as the entity reference; HTML5 names MathCAT does not know may be rejected (allowed by the statement).",
             "DESIGN.md 3/C17"),
+    "C16": ("differential property-based testing: every generated split spelling of a locale number against its single-token spelling",
+            "Generated numbers of the locale grammar (US / continental / Swiss / space groups), all cut patterns at the separators (own mo / own mtext / glued left / glued right / uncut) in ten contexts; canonical tree, speech and braille of the split spelling must equal those of the single mn; negative cases (two decimal marks, short group after a comma, operator in between, comma lists in fences) must not fold.",
+            "Excluded by construction, with the reason recorded in evidence.reject_reasons: leading/trailing commas and trailing decimal marks in their own token (documented as never folded because they cannot be told from punctuation) and a final period where '.' is a separator of the locale.",
+            "DESIGN.md 3/C16"),
 }
 
 NOT_YET = "check not built yet in this round (machinery in progress; see DESIGN.md section 7 build order)"
